@@ -364,8 +364,14 @@ impl SanitizerConfig {
 
                 // Check if the attribute is allowed.
                 if whitelist_attrs {
-                    let list_allowed = list_allow_attrs.is_some_and(|set| set.contains(attr_name));
-                    let mode_allowed = mode_allow_attrs.is_some_and(|set| set.contains(attr_name));
+                    // The lists contain names of HTML attributes. An attribute in another
+                    // namespace (e.g. `xlink:href`) is serialized with a prefix, so it is never
+                    // one of them.
+                    let is_html_attr = attr.name.ns.is_empty();
+                    let list_allowed =
+                        is_html_attr && list_allow_attrs.is_some_and(|set| set.contains(attr_name));
+                    let mode_allowed =
+                        is_html_attr && mode_allow_attrs.is_some_and(|set| set.contains(attr_name));
 
                     if !list_allowed && !mode_allowed {
                         return Some(AttributeAction::Remove(attr.to_owned()));
